@@ -661,3 +661,44 @@ pub fn gen_bound_rec_family(r: &mut Rng) -> (Program, Edb, Vec<&'static str>) {
     }
     (Program { clauses }, edb, vec!["bound-recursive-query", "self-recursive"])
 }
+
+
+/// A head that depends on another derived relation ONLY through negation, with the negated relation's
+/// rules written AFTER the rule that negates it (rule order is not part of the meaning); the negated
+/// relation is a filter, a join or a recursive closure.
+pub fn gen_neg_order_family(r: &mut Rng) -> (Program, Edb, Vec<&'static str>) {
+    use Lit::*;
+    let v = |i: u32| Term::Var(i);
+    let user = Clause { head: 11, args: vec![HTerm::Var(0)], body: vec![Pos(2, vec![v(0)]), Neg(10, vec![v(0)])] };
+    let mut defs = match r.below(3) {
+        0 => vec![Clause { head: 10, args: vec![HTerm::Var(0)], body: vec![Pos(0, vec![v(0), Term::Wild])] }],
+        1 => vec![Clause { head: 10, args: vec![HTerm::Var(0)], body: vec![Pos(0, vec![v(0), v(1)]), Pos(1, vec![v(1), Term::Wild])] }],
+        _ => vec![
+            Clause { head: 10, args: vec![HTerm::Var(1)], body: vec![Pos(0, vec![Term::Int(0), v(1)])] },
+            Clause { head: 10, args: vec![HTerm::Var(1)], body: vec![Pos(10, vec![v(0)]), Pos(1, vec![v(0), v(1)])] },
+        ],
+    };
+    let q = Clause { head: 99, args: vec![HTerm::Var(0)], body: vec![Pos(11, vec![v(0)])] };
+    let mut clauses = vec![];
+    if r.chance(3, 4) {
+        clauses.push(user);
+        clauses.append(&mut defs);
+    } else {
+        clauses.append(&mut defs);
+        clauses.push(user);
+    }
+    clauses.push(q);
+    let mut edb = vec![];
+    for rel in 0..2u32 {
+        let mut ts: Vec<Tuple> = vec![];
+        for _ in 0..r.range(2, 6) {
+            let t = Tuple::new(vec![Value::Int64(r.range(0, 4)), Value::Int64(r.range(0, 4))]);
+            if !ts.contains(&t) {
+                ts.push(t);
+            }
+        }
+        edb.push((rel, ts));
+    }
+    edb.push((2, (0..5).filter(|_| r.chance(3, 4)).map(|x| Tuple::new(vec![Value::Int64(x)])).collect()));
+    (Program { clauses }, edb, vec!["negation", "negated-relation-defined-later"])
+}
